@@ -73,6 +73,11 @@ type Exec struct {
 	ghostAfter   map[string]int
 	callOrd      map[*ast.CallExpr]int
 	caseTerms    []*Term
+	allStmts     []ast.Stmt          // statements of the unit's function (anchor.go)
+	rebound      map[string]ast.Node // anchors re-bound after drift
+	renames      map[string]string   // old local name -> new name, learned from re-bound anchors
+	renamesLearned bool
+	loopMap        map[ast.Stmt]int // current loop -> ordinal in the baseline source (0 = none)
 }
 
 func NewExec(prog *Program, cs *ContractSet, unit *FuncUnit, uc *UnitContract) *Exec {
@@ -457,6 +462,14 @@ func (x *Exec) lookupObj(id *ast.Ident, sp *SpecCtx) types.Object {
 	}
 	if o := types.Universe.Lookup(id.Name); o != nil {
 		return o
+	}
+	// a local that was renamed in the source (learned when an anchor was re-bound, anchor.go)
+	x.learnRenames()
+	if nn, ok := x.renames[id.Name]; ok && sp.scope != nil {
+		if _, o := sp.scope.LookupParent(nn, sp.pos); o != nil {
+			x.abstract("contract identifier " + id.Name + " bound to the renamed local " + nn)
+			return o
+		}
 	}
 	return nil
 }
@@ -1197,7 +1210,7 @@ func (x *Exec) execStmt(s ast.Stmt, st *State, label string) Outcomes {
 
 func (x *Exec) runStmtHooks(s ast.Stmt, txt string, st *State, before bool) {
 	for _, as := range x.uc.AtStmts {
-		if as.Before != before || !strings.HasPrefix(txt, as.Anchor) {
+		if as.Before != before || !x.anchorMatches(s, as.Anchor) {
 			continue
 		}
 		as.Used++
@@ -1748,6 +1761,10 @@ func (x *Exec) loopContract(s ast.Stmt) (*LoopContract, int) {
 	if !ok {
 		return nil, 0
 	}
+	// the ordinal the loop had in the baseline source (loops added/removed/moved elsewhere shift the ordinals)
+	if b := x.baselineOrdinal(s, ord); b != 0 {
+		ord = b
+	}
 	if lc, ok := x.uc.Loops[ord]; ok {
 		return lc, ord
 	}
@@ -1758,16 +1775,12 @@ func (x *Exec) loopContract(s ast.Stmt) (*LoopContract, int) {
 	}
 	// loops bound by anchor text (robust against loops added or removed elsewhere in the function): the unit's own
 	// and those of the function-level contract; loop contracts of OTHER regions of the same function are not used
-	var txt string
 	for _, u := range []*UnitContract{x.uc, x.fuc} {
 		if u == nil {
 			continue
 		}
 		for _, lc := range u.ALoops {
-			if txt == "" {
-				txt = normWS(x.src(s))
-			}
-			if strings.HasPrefix(txt, lc.Anchor) {
+			if x.anchorMatches(s, lc.Anchor) {
 				lc.Ordinal = ord
 				return lc, ord
 			}
